@@ -31,8 +31,68 @@ def configs(tier):
     return c
 
 
+# Part 2: the control interface keeps descriptors of its own (a listening UNIX socket and up to two session sockets)
+# in the socket's epoll set.  h_ctl with probe16=1: when the traffic is over and flushed and every control session
+# has had all its requests answered and has read the replies, the sessions are kept OPEN (1, 2, and 3 of them - the
+# third sits un-accepted in the listen queue beyond the two-entry session table), the control interface is serviced
+# until it has nothing left to do, and xcm_fd of the target must not be readable while the awaited condition is 0
+# (connection) / XCM_SO_ACCEPTABLE with nothing pending (server socket).
+CTL_CONFIGS = [
+    # (params, bound quick, bound thorough)
+    ("tp=tcp,target=a,c0=r:ga,c1=x:g,c2=r:,rel=99,probe16=1", 0, 1),
+    ("tp=ux,target=srv,c0=r:g,c1=r:a,c2=r:,rel=99,probe16=1", 0, 1),
+    ("tp=tcp,target=b,c0=r:g,c1=r:a,c2=r:,rel=99,probe16=1", 0, 1),
+    ("tp=tcp,target=srv,c0=r:g,c1=r:k,rel=99,probe16=1", 1, 2),
+    ("tp=ux,target=b,c0=x:ag,c1=r:u,rel=99,probe16=1", 1, 2),
+    ("tp=tcp,target=srv,c0=r:g,c1=r:k,rel=3,probe16=1", 0, 1),
+    ("tp=ux,target=a,c0=r:g,rel=0,probe16=1", 1, 2),
+]
+
+
+def run_ctl_part(chk, tier, jobs):
+    import os
+    import shutil
+    import build
+    import harnesses
+    from checks import C14 as c14
+    q = tier == "quick"
+    run_root = os.path.join(build.BUILD, "run", "c16ctl-%d" % os.getpid())
+    os.makedirs(run_root, exist_ok=True)
+    cov = chk.coverage
+    probes = 0
+    try:
+        exe = harnesses.build_explorer_harness("h_ctl", variant="plain", **c14.BUILD_KW)
+        env = dict(os.environ, C14_RUN=run_root)
+        for params, bq, bt in CTL_CONFIGS:
+            bound = bq if q else bt
+            res = harnesses.explore(exe, params, bound, 120 if q else 600, jobs=jobs, env=env)
+            harnesses.merge_into(chk, res, PREFIXES, params)
+            for k in ("states", "transitions", "executions"):
+                cov[k] = cov.get(k, 0) + res.get(k, 0)
+            cov["traces_validated_against_impl"] = cov.get("traces_validated_against_impl", 0) + res.get("executions", 0)
+            cov["evaluations"] = cov.get("evaluations", 0) + res.get("executions", 0)
+            cov["configurations"] = cov.get("configurations", 0) + 1
+            probes += (res.get("counters") or [0] * 6)[5]
+            cov.setdefault("per_configuration", []).append(
+                dict(params=params, bound=bound, build="plain", harness="h_ctl", executions=res.get("executions"),
+                     completed_bound=res.get("completed_bound"), states=res.get("states"),
+                     transitions=res.get("transitions"), wall_s=round(res.get("elapsed", 0), 2)))
+            for s in res.get("samples", [])[:1]:
+                if len(cov.setdefault("samples", [])) < 12:
+                    cov["samples"].append(dict(scenario=params, execution=s))
+            if res.get("completed_bound", -1) < bound:
+                cov["exhaustive"] = False
+    finally:
+        shutil.rmtree(run_root, ignore_errors=True)
+    cov["idle_probes_with_open_control_sessions"] = probes
+
+
 def run(chk, tier, jobs, deadline):
     chk.assumptions += ASSUME
+    chk.assumptions.append("control interface: 1-3 control sessions kept open (the third beyond the two-entry session table) after "
+                           "all their requests were answered and read; readiness is judged after the control interface has been "
+                           "serviced until it has nothing left to do (at most 8 rounds of 257 xcm_finish calls)")
     msgfamily.run_configs(chk, "h_msg", configs(tier), PREFIXES, jobs,
                           deadline or (420 if tier == "quick" else 2700),
                           counter_names={0: "quiescent_points_evaluated"})
+    run_ctl_part(chk, tier, jobs)
